@@ -142,8 +142,8 @@ SolveResult minimize(auto && f, auto && x, auto && cb, const MinimizeOptions & o
     bool verif_accepted = false;
 #endif
 
-    // step
-    if (r_n == 0 || pred_red <= 0 || take_step) {
+    // step (a step that increases the cost is never accepted)
+    if (r_n == 0 || (actu_red >= 0 && (pred_red <= 0 || take_step))) {
 #ifdef SMOOTH_VERIF
       verif_accepted = true;
 #endif
